@@ -40,6 +40,21 @@ CHECKS = {
              "(all patterns up to 3x3/4x3, triplet sequences, raw encodings for check_format, block concatenations); MC_Csc checks algebraic laws of the specification itself.",
          "5/C16", "Trusted base: TLC; integer-valued data (exact f64). Quick samples the enumeration by seed; thorough is exhaustive.",
          "trace validation of enumerated operation calls against Csc.tla (TLC) + bounded model checking of spec laws"),
+ "C08": (MC, "DataUpdate.tla models every argument form of update_P/q/A/b and update_data (accepted, rejected, refused, partially applied) over abstract data versions; "
+             "all histories of length 2 (+solve) are replayed on the real solver: result kinds, internal data and KKT copy after each call, and the next solve against a freshly "
+             "built solver on the model's data (bit-for-bit when equilibration is off, verdict class and objective otherwise) plus observer residuals.",
+         "5/C08", "Trusted base: TLC, replayer, observer. Histories longer than 2 updates are not enumerated; four seed problems.",
+         "TLA+ model enumeration (TLC) with spec->impl replay of every history against the real solver and a fresh-solver oracle"),
+ "C09": (MC, "Presolve.tla models cone-list collapsing, the module-level infinity bound (set before/after construction), the reduction map, reduced cone list, capping of b and "
+             "reversal; every behaviour (all cone lists up to 3 cones / 4-6 rows, every placement of finite/big/huge right-hand sides, presolve on/off, bound histories) is replayed: "
+             "construction-time facts through a read-only hook and the public data, solve-time facts through the public solution and a hand-reduced problem.",
+         "5/C09", "Trusted base: TLC, replayer, observer. Exhaustive for the bounded menus.",
+         "TLA+ model enumeration (TLC) with spec->impl replay"),
+ "C10": (MC, "Equil.tla states the five clauses (disabled => untouched bit-for-bit; cumulative scalings within [min,max]; zero rows/columns of scalar cones unscaled; E constant on non-scalar cones; "
+             "internal data = c*D*P*D, E*A*D, c*D*q, E*b to 64 ulps) on ordered-float limbs; TLC evaluates them on the public solver.data of thousands of constructed solvers "
+             "with scales spanning 30 orders of magnitude.", "5/C10",
+         "Trusted base: TLC, FloatOrd, observer products. No bounded design model beyond the trace spec: the property is a post-condition of one construction step.",
+         "trace validation (TLC) of recorded equilibration states against Equil.tla"),
 }
 NOT_APPLICABLE = [
  {"property_id": "C13", "reason": "Nesterov-Todd identities are real-analytic identities (square roots, matrix square roots) with no state, history or index structure for a TLA+ model to carry; TLC has no real arithmetic. The structural clause (KKT block = operator used for slack recovery) is decided under C11."},
